@@ -112,6 +112,7 @@ func (c *FenceConn) BeginTx(ctx context.Context, opts driver.TxOptions) (driver.
 	}
 
 	if !tm.IsSeataContext(ctx) {
+		_ = tx.Rollback()
 		return nil, errors.New("there is not seata context")
 	}
 
@@ -124,10 +125,13 @@ func (c *FenceConn) BeginTx(ctx context.Context, opts driver.TxOptions) (driver.
 
 	fenceTx, err := c.TargetDB.BeginTx(ctx, &sql.TxOptions{})
 	if err != nil {
+		tm.SetFenceTxBeginedFlag(ctx, false)
+		_ = tx.Rollback()
 		return nil, err
 	}
 	defer func() {
 		if err != nil {
+			tm.SetFenceTxBeginedFlag(ctx, false)
 			if err := fenceTx.Rollback(); err != nil {
 				log.Error(err)
 			}
@@ -144,7 +148,7 @@ func (c *FenceConn) BeginTx(ctx context.Context, opts driver.TxOptions) (driver.
 		return nil
 	}
 
-	if err := WithFence(ctx, fenceTx, emptyCallback); err != nil {
+	if err = WithFence(ctx, fenceTx, emptyCallback); err != nil {
 		return nil, err
 	}
 
